@@ -135,9 +135,10 @@ def p_argument_4(t):
     '''argument : PERCENT SEGMENT COLON address'''
     t[0] = {
         x86_afs.segm:x86_afs.reg_sg.index(t[2].lower()),
-        x86_afs.ad:x86_afs.u32,
         }
     t[0].update(t[4])
+    # a memory operand of a size not yet known, as in 'argument : address'
+    t[0][x86_afs.ad] = True
 
 def p_symbol_0(t):
     '''symbol : NAME
